@@ -60,14 +60,19 @@ func moduleErrorsConsumed(e *Env, entries []string, floor int, prefixes ...strin
 	for _, s := range a.SitesWhere(in, mod) {
 		n++
 		if !s.OK && s.How == "error result is discarded" {
-			outer := s.Fn
-			for outer.Parent() != nil {
-				outer = outer.Parent()
+			// a helper the rule tables do not know discards on behalf of the known
+			// functions that call it (knownCallers resolves closures to their parent)
+			done := false
+			for _, owner := range knownCallers(e, s.Fn, 0) {
+				k := owner + " -> " + prov.CalleeName(s.Call.Common())
+				if d, ok := discardedOnPurpose[k]; ok && onPurpose[k] < d.n {
+					onPurpose[k]++
+					e.R.OK("ERRUSE", s.Key, s.Pos, "discarded on purpose (frozen by function, callee and count): "+d.why)
+					done = true
+					break
+				}
 			}
-			k := load.FuncName(outer) + " -> " + prov.CalleeName(s.Call.Common())
-			if d, ok := discardedOnPurpose[k]; ok && onPurpose[k] < d.n {
-				onPurpose[k]++
-				e.R.OK("ERRUSE", s.Key, s.Pos, "discarded on purpose (frozen by function, callee and count): "+d.why)
+			if done {
 				continue
 			}
 		}
